@@ -193,12 +193,28 @@ def body_det(case):
     return dict(violations=v, labels=labs, nontrivial=nt, oracle_evals=1, sample=dict(v0=v0, delta=delta, tol_fun=case["tol_fun"]))
 
 
+# specified noise, exactly one final sample, warm start (the returned point is then often the very first log record)
+N1_PROFILE = dict(PROFILE, noise_modes=("specified",), final_samples=(1,), p_warm=0.6, p_cons=0.0, max_iter_choices=(None,),
+                  c_classes=("inside", "at_x0"), extra_budget=(20, 70))
+N_N1 = {"quick": 64, "thorough": 1000}
+
+
+def body_n1(scn):
+    scn = dict(scn, options=dict(scn["options"], noise_final_samples=1))
+    scn["target"] = dict(scn["target"], noise=dict(scn["target"]["noise"], hetero=max(scn["target"]["noise"].get("hetero", 0.0), 0.5)))
+    out = body_run(scn)
+    out["labels"] = list(out["labels"]) + ["n1"]
+    return out
+
+
 def plan(tier):
-    return [("runs", 16), ("detect", 16)]
+    return [("runs", 16), ("detect", 16), ("n1warm", 8)]
 
 
 def run_part(res, part, tier, seed, shard, nshards):
-    if part == "runs":
+    if part == "n1warm":
+        runlevel.sweep(res, N1_PROFILE, N_N1[tier], seed + 99, shard, nshards, body_n1)
+    elif part == "runs":
         runlevel.sweep(res, PROFILE if tier == "quick" else dict(PROFILE, maxD=5, extra_budget=(0, 250)), N[tier], seed, shard, nshards, body_run)
     else:
         runlevel.sweep(res, None, N_DET[tier], seed + 31, shard, nshards, body_det, strategy=det_cases())
@@ -208,6 +224,8 @@ def minimise(part, tier, sig, case, seed):
     mr = 12 if tier == "quick" else 40
     if part == "runs":
         return runlevel.field_minimise(case, sig, body_run, max_runs=mr)
+    if part == "n1warm":
+        return runlevel.field_minimise(case, sig, body_n1, max_runs=mr)
 
     def simp(c):
         for d, s2 in scenario.simplifications(c["scn"]):
@@ -216,7 +234,7 @@ def minimise(part, tier, sig, case, seed):
 
 
 def replay(part, case):
-    return runlevel.replay_body(body_det if part == "detect" else body_run, case)
+    return runlevel.replay_body(body_det if part == "detect" else (body_n1 if part == "n1warm" else body_run), case)
 
 
 def floors(tier):
